@@ -258,8 +258,9 @@ def mc_system(res, wd, name, over, workers=12, timeout=900, invariants=("NoViola
     consts.update({k: str(v) for k, v in over.items()})
     cfgp = os.path.join(wd, "mc_%s.cfg" % name)
     write_cfg(cfgp, "Spec", consts, invariants=invariants, view="View")
+    tracep = os.path.join(wd, "mc_%s_cex.json" % name)
     rc, out = core.tlc(os.path.join(core.SPEC, "MC_Sys.tla"), cfgp, os.path.join(wd, "md_mc_" + name),
-                       workers=workers, timeout=timeout, xmx="10g")
+                       workers=workers, timeout=timeout, xmx="10g", extra=["-dumpTrace", "json", tracep])
     gen, dist = core.parse_tlc_stats(out)
     violated = ("is violated" in out)
     if rc != 0 and not violated:
@@ -269,4 +270,60 @@ def mc_system(res, wd, name, over, workers=12, timeout=900, invariants=("NoViola
     res.add_model("System/" + name, gen, dist, {"constants": {k: consts[k] for k in
                   ("Peers", "Window", "Sparse", "PredDefault", "MaxFrame", "LinkCap", "InboxCap", "DesyncInterval")},
                   "violated": violated, "exhaustive": True})
-    return (not violated), out
+    if violated:
+        return False, cex_schedule(tracep, consts)
+    return True, None
+
+
+def cex_schedule(tracep, consts):
+    """Turn TLC's JSON counterexample (states carry lastLine) into a harness schedule."""
+    try:
+        with open(tracep) as f:
+            tr = json.load(f)
+    except (OSError, ValueError):
+        return None
+    steps = []
+    for st in tr.get("state", tr if isinstance(tr, list) else []):
+        v = st[1] if isinstance(st, list) else st
+        ln = v.get("lastLine") if isinstance(v, dict) else None
+        if not ln or ln.get("a") in (None, "init"):
+            continue
+        a = ln["a"]
+        if a == "tick":
+            steps.append({"a": "tick", "p": ln["p"], "in": ln["in"]})
+        elif a in ("poll", "ev", "kill"):
+            steps.append({"a": a, "p": ln["p"]})
+        elif a in ("dlv", "drop", "dup"):
+            steps.append({"a": a, "from": ln["from"], "to": ln["to"], "k": ln["k"]})
+        elif a == "clk":
+            steps.append({"a": "clk", "d": ln["d"]})
+        elif a == "disc":
+            steps.append({"a": "disc", "p": ln["p"], "h": ln["h"]})
+        elif a == "dly":
+            steps.append({"a": "dly", "p": ln["p"], "h": ln["h"], "d": ln["d"]})
+    pre = [{"a": "sync"}] if consts.get("PreSynced") == "TRUE" else []
+    return {"cfg": scenario_of(consts), "steps": pre + steps, "linkcap": int(consts["LinkCap"])}
+
+
+def confirm_on_impl(res, pid, wd, tag, sched, props, cls=None):
+    """Replay a model counterexample on the real sessions; a violation there is a VIOLATION."""
+    if sched is None:
+        raise core.ToolError("model violation without a usable counterexample (%s)" % tag)
+    path = os.path.join(wd, "cex_%s.ndjson" % tag)
+    core.drive([sched], path, detail=2)
+    r = core.validate_trace(path, os.path.join(wd, "mdo_cex_" + tag))
+    res.traces += 1
+    hit = False
+    for v in r["viol"]:
+        run, prop, n, code, det = v[0], v[1], v[2], v[3], v[4]
+        if prop in props or prop == "PANIC":
+            hit = True
+            replay = core.save_replay(pid, path, run, "cex_%s_s%d" % (tag, res.seed))
+            res.violations.append({"prop": prop, "code": code, "line": n, "detail": det, "family": "mc:" + tag,
+                                   "cls": cls or tag, "replay": replay})
+            break
+    if not hit:
+        res.extra.setdefault("model_only_counterexamples", []).append(tag)
+        core.log("[%s] model counterexample (%s) did not reproduce on the implementation: "
+                 "the model deviates from the code" % (pid, tag))
+    return hit
